@@ -979,6 +979,33 @@ impl Thread {
         self.context()
     }
 
+    /// Verification hook: reports every object reachable from this thread's roots (the same
+    /// roots a collection of this thread uses) without marking anything
+    #[cfg(feature = "verif")]
+    pub fn verif_walk(&self) -> crate::verif::WalkReport {
+        let mut context = self.owned_context();
+        self.with_roots(&mut context, |gc, roots| {
+            crate::verif::begin_walk();
+            roots.trace(gc);
+            crate::verif::end_walk()
+        })
+    }
+
+    /// Verification hook: id of this thread's heap followed by the ids of its ancestors' heaps
+    #[cfg(feature = "verif")]
+    pub fn verif_heap_owners(&self) -> Vec<u64> {
+        let mut owners = Vec::new();
+        let mut current: &Thread = self;
+        loop {
+            owners.push(current.owned_context().gc.verif_owner_id());
+            match &current.parent {
+                Some(parent) => current = &**parent,
+                None => break,
+            }
+        }
+        owners
+    }
+
     /// Verification hook: (number of frames, length of the value stack) of this thread
     #[cfg(feature = "verif")]
     pub fn verif_stack_shape(&self) -> (usize, usize) {
